@@ -33,6 +33,21 @@ Theorem c20_documented_parameters_all_read : forall t b argv i k,
 Proof. exact documented_parameters_all_read. Qed.
 Print Assumptions c20_documented_parameters_all_read.
 
+(* documented order = order read.  [b_doc] is the list of parameters the tool's help text prints for the option, in that
+   order, each classified from its wording; [u_kind] is what the code does with opt_parms[k], classified from the TYPE it
+   is handed to (Geometry constructor argument 0/1, Matrix, SymMatrix, SparseMatrix, Sensors, Mesh, save, a string).
+   On a line with all documented parameters and on a line with the mandatory ones only, the k-th parameter goes where the
+   k-th documented parameter says.  (Two parameters of the same kind, e.g. two Matrix files, are told apart only by the
+   differential runs.) *)
+Theorem c20_documented_order_read : forall t b argv i u,
+  In t gen_tools -> In b (t_blocks t) -> block_option argv b = Ret (Some i) ->
+  (num_args argv i = List.length (doc_full b) \/ num_args argv i = List.length (doc_mand b)) ->
+  In u (b_uses b) -> guard_holds (u_guard u) (num_args argv i) = true -> 1 <= u_k u ->
+  exists d, nth_error (if num_args argv i =? List.length (doc_full b) then doc_full b else doc_mand b) (u_k u - 1) = Some d
+            /\ compat d (u_kind u) = true.
+Proof. exact documented_order_read. Qed.
+Print Assumptions c20_documented_order_read.
+
 (* no tool, on no command line, reads argv[argc] or beyond *)
 Theorem c20_no_read_outside_argv : forall t argv, In t gen_tools -> r_final (run_tool t argv) <> FCrash.
 Proof. exact no_read_outside_argv. Qed.
